@@ -12,12 +12,19 @@ namespace C05
 open Sim
 variable {S σ : Type} [Scalar S]
 
-/-- before the first step nothing has happened -/
+/-- before the first step nothing has happened: no handler or protocol lifecycle call, no callback, no
+    executed event — the only observations are the requests a user issued through the nodes' providers
+    between `build()` and the first step (none, if there were none) -/
 theorem C05_before_first_step {cfg : Config S} (hdt : 0 ≤ cfg.dt) {P : NodeId → Proto S σ}
     {w : World S σ} (h : Reachable cfg P w) (hi : w.initialized = false) :
-    w.trace = [] ∧ w.executed = [] ∧ w.finalized = false := by
+    (∀ o ∈ w.trace, ∃ n, Obs.isRequestOf n o) ∧ w.executed = [] ∧ w.finalized = false := by
   obtain ⟨h1, h2, _, h4⟩ := (reachable_linv hdt h).fresh hi
-  exact ⟨by simp [World.trace, h1], by simp [World.executed, h2], h4⟩
+  exact ⟨fun o ho => h1 o (by simpa [World.trace] using ho), by simp [World.executed, h2], h4⟩
+
+/-- without requests before the first step, the trace is empty until the first step -/
+theorem C05_before_first_step_fresh (cfg : Config S) (P : NodeId → Proto S σ) :
+    (init cfg P).trace = [] ∧ (init cfg P).executed = [] ∧ (init cfg P).initialized = false := by
+  rw [init_eq]; split <;> simp [init0, sched, World.trace, World.executed]
 
 /-- the exact lifecycle shape: each handler initialised once, in registration order, before any
     protocol; each protocol's initialize once, in node order, at time 0, before any event; after the
